@@ -58,6 +58,25 @@ def stage_sites(F):
     return sites
 
 
+def check_has_designated_work(ctx, F, rule):
+    """has_designated_work() must be true when ANY worker still holds a designated packet; the last parked worker relies on
+    it before opening further buckets or declaring the GC finished (and resuming mutators)."""
+    hd = F.fn("scheduler::worker::WorkerGroup::has_designated_work")
+    anyc = [c for c in live_calls(hd) if c.name == "any"]
+    allc = [c for c in live_calls(hd) if c.name == "all"]
+    clo_ok = False
+    for cl in closures_of(F, hd):
+        rt = [strip(t) for r, t in cl.flow.return_trees()]
+        clo_ok = bool(rt) and all(t and t[0] == "un" and t[1] == "Not" and "is_empty" in show(t) and "designated_work" in show(t) for t in rt)
+    ctx.judge(len(anyc) == 1 and not allc and clo_ok, rule, "has_designated_work is true when ANY worker still holds a designated packet",
+              expected="workers_shared.iter().any(|w| !w.designated_work.is_empty())", found="any=%d all=%d closure-ok=%s" % (len(anyc), len(allc), clo_ok), where=where(hd), key=rule + "|any")
+    fm = F.fn("scheduler::scheduler::GCWorkScheduler::find_more_work_for_workers")
+    falses = [(b, t, g) for b, t, g in ret_table(fm) if const_arg(t) is False]
+    okf = bool(falses) and all(any("has_designated_work" in show(p.tree) and p.val is False for p in g) for b, t, g in falses)
+    ctx.judge(okf, rule, "'no more work' (GC finished) is only reported when no worker holds designated packets", expected="return false dominated by has_designated_work()==false",
+              found=str(len(falses)), where=where(fm), key=rule + "|finished")
+
+
 def stage_order(F):
     a = F.adts.get(STAGE_TY)
     if not a:
